@@ -104,6 +104,62 @@ def ufunc_creator_routes(root):
     return out
 
 
+def isinstance_types(fn, argname):
+    """class names X in `isinstance(<argname>, X)` tests inside fn (tuples flattened)"""
+    out = []
+    for node in ast.walk(fn):
+        if isinstance(node, ast.Call) and isinstance(node.func, ast.Name) and node.func.id == "isinstance" and len(node.args) == 2 \
+                and isinstance(node.args[0], ast.Name) and node.args[0].id == argname:
+            t = node.args[1]
+            for e in (t.elts if isinstance(t, ast.Tuple) else [t]):
+                out.append(ast.unparse(e))
+    return sorted(set(out))
+
+
+def array_ufunc_structure(path):
+    """Shape of Tensor.__array_ufunc__ and _as_constant_array, read from the source."""
+    tree = ast.parse(open(path).read())
+    cls = [n for n in tree.body if isinstance(n, ast.ClassDef) and n.name == "Tensor"][0]
+    fn = [n for n in cls.body if isinstance(n, ast.FunctionDef) and n.name == "__array_ufunc__"]
+    if len(fn) != 1:
+        raise Refuse("Tensor.__array_ufunc__ not found")
+    fn = fn[0]
+    params = [a.arg for a in fn.args.args]
+    if params[:3] != ["self", "ufunc", "method"]:
+        raise Refuse("__array_ufunc__ signature %s" % params)
+    info = {"honours_method_registered": False, "honours_method_fallback": False, "casters": [], "else_notimplemented": False, "constonly_to_valueerror": False}
+    for node in ast.walk(fn):
+        if isinstance(node, ast.Call) and isinstance(node.func, ast.Call) and isinstance(node.func.func, ast.Name) and node.func.func.id == "getattr" and len(node.func.args) == 2:
+            tgt, meth = node.func.args
+            if isinstance(meth, ast.Name) and meth.id == "method":
+                if isinstance(tgt, ast.Subscript) and isinstance(tgt.value, ast.Name) and tgt.value.id == "_REGISTERED_UFUNC" and isinstance(tgt.slice, ast.Name) and tgt.slice.id == "ufunc":
+                    info["honours_method_registered"] = True
+                if isinstance(tgt, ast.Name) and tgt.id == "ufunc":
+                    info["honours_method_fallback"] = True
+        if isinstance(node, ast.If) and isinstance(node.test, ast.Compare) and len(node.test.ops) == 1 and isinstance(node.test.ops[0], ast.In) \
+                and isinstance(node.test.left, ast.Name) and node.test.left.id == "ufunc" and isinstance(node.test.comparators[0], ast.Name):
+            table = node.test.comparators[0].id
+            cast = [st.value.id for st in node.body if isinstance(st, ast.Assign) and isinstance(st.targets[0], ast.Name) and st.targets[0].id == "caster" and isinstance(st.value, ast.Name)]
+            if len(cast) != 1:
+                raise Refuse("__array_ufunc__: branch for %s does not set caster to a name" % table)
+            if table not in [t for t, _ in info["casters"]]:
+                info["casters"].append((table, cast[0]))
+            if node.orelse and not isinstance(node.orelse[0], ast.If):
+                r = node.orelse[0]
+                info["else_notimplemented"] = isinstance(r, ast.Return) and isinstance(r.value, ast.Name) and r.value.id == "NotImplemented"
+        if isinstance(node, ast.ExceptHandler) and isinstance(node.type, ast.Name) and node.type.id == "_ConstantOnly":
+            info["constonly_to_valueerror"] = any(isinstance(st, ast.Raise) and isinstance(st.exc, ast.Call) and isinstance(st.exc.func, ast.Name) and st.exc.func.id == "ValueError" for st in node.body)
+    ca = [n for n in tree.body if isinstance(n, ast.FunctionDef) and n.name == "_as_constant_array"]
+    raises = False
+    if len(ca) == 1:
+        for node in ast.walk(ca[0]):
+            if isinstance(node, ast.If) and isinstance(node.test, ast.Compare) and isinstance(node.test.ops[0], ast.Is) and ast.unparse(node.test.left).endswith(".constant") \
+                    and isinstance(node.test.comparators[0], ast.Constant) and node.test.comparators[0].value is False:
+                raises = any(isinstance(st, ast.Raise) and "_ConstantOnly" in ast.unparse(st) for st in node.body)
+    info["const_caster_raises_on_nonconstant"] = raises
+    return info
+
+
 def coq_str(s):
     return '"%s"' % s
 
@@ -115,6 +171,10 @@ def regenerate():
         ufc = ufunc_creator_routes(os.path.join(REPO, "src", "mygrad"))
         mth = method_routes(os.path.join(REPO, "src", "mygrad", "tensor_base.py"))
         fnr = function_routes(os.path.join(REPO, "src", "mygrad"))
+        tb_path = os.path.join(REPO, "src", "mygrad", "tensor_base.py")
+        aus = array_ufunc_structure(tb_path)
+        tcls = [n for n in ast.parse(open(tb_path).read()).body if isinstance(n, ast.ClassDef) and n.name == "Tensor"][0]
+        shortcut_types = {fn.name: isinstance_types(fn, "other") for fn in tcls.body if isinstance(fn, ast.FunctionDef) and fn.name in dun and len(dun[fn.name]) > 1}
     except (Refuse, SyntaxError, OSError) as e:
         return ["routes translator refused: %s" % e], None
     rt = run_impl("routes_impl.py", {})
@@ -133,6 +193,16 @@ def regenerate():
         L.append("Definition %s : list (string * string) := [" % nm)
         L.append(";\n".join('  (%s, %s)' % (coq_str(k), coq_str(v)) for k, v in sorted(d.items())))
         L.append("].")
+    b = lambda x: "true" if x else "false"
+    L.append("(* structure of Tensor.__array_ufunc__ / _as_constant_array, read from the source *)")
+    L.append("Definition au_honours_method_registered : bool := %s." % b(aus["honours_method_registered"]))
+    L.append("Definition au_honours_method_fallback : bool := %s." % b(aus["honours_method_fallback"]))
+    L.append("Definition au_fallback_casters : list (string * string) := [%s]." % "; ".join("(%s, %s)" % (coq_str(t), coq_str(c)) for t, c in aus["casters"]))
+    L.append("Definition au_else_notimplemented : bool := %s." % b(aus["else_notimplemented"]))
+    L.append("Definition au_constonly_becomes_valueerror : bool := %s." % b(aus["constonly_to_valueerror"]))
+    L.append("Definition const_caster_raises_on_nonconstant : bool := %s." % b(aus["const_caster_raises_on_nonconstant"]))
+    L.append("(* operators with several routes: the types of `other` for which a shortcut route may be taken *)")
+    L.append("Definition shortcut_operand_types : list (string * list string) := [%s]." % "; ".join("(%s, [%s])" % (coq_str(k), "; ".join(coq_str(x) for x in v)) for k, v in sorted(shortcut_types.items())))
     L.append("Definition np_func_override : list (string * string) := [   (* numpy function -> mygrad function it is overridden by *)")
     L.append(";\n".join('  (%s, %s)' % (coq_str(k), coq_str(v)) for k, v in sorted(rt["np_func"].items())))
     L.append("].")
